@@ -143,6 +143,28 @@ CLAIMED['C19'] = dict(
          'IEEE rounding of linspace; logicle root p (any p>0).',
     ref='4/C19', technique=TECH + '; lazy functional arrays with symbolic length')
 
+CLAIMED['C13'] = dict(
+    text='Aliasing is executed on a model with NumPy\'s view/copy semantics and real Python '
+         'metadata containers: for transforms, gates, statistics, calibration steps, bin '
+         'generators and the plotting prologues, with symbolic options (scale spelling, range '
+         'limits incl. <= 0, container, dtype, channel and bins forms), a deep fingerprint of '
+         'every argument is compared before/after; results are mutated to show they share '
+         'nothing; 13x13 ordered query pairs are compared with a fresh sample. Found and led to '
+         'the repair of three genuine mutation defects.',
+    note='Trusted: symnp view/copy semantics (exercised by the C04 indexing validation), stubs '
+         'for scipy/sklearn/matplotlib. Plot functions other than density2d/hist1d are listed as '
+         'uncovered in the evidence (their bodies are matplotlib calls).',
+    ref='4/C13', technique=TECH + ' with executed aliasing')
+CLAIMED['C20'] = dict(
+    text='Histories of up to two (thorough three) symbolic analysis steps followed by a symbolic '
+         'choice of copy/copy.copy/deepcopy/view/pickle: events, dtype tag and all 14 state '
+         'fields (each with a distinct non-default value) equal, independence in both directions; '
+         'FCSFile == / != / hash with one symbolic event in both files.',
+    note='Pickling is modelled at the __reduce__/__setstate__ level (CPython\'s byte-level '
+         'protocols are not executed symbolically; replays use the real pickle with protocols '
+         '0-5). Trusted: symnp subclass protocol, CrossHair.',
+    ref='4/C20', technique=TECH + '; histories as symbolic choices')
+
 NA = {
     'C15': 'whole-program run through compiled third-party code and the file system (openpyxl/'
            'pandas xlsx I/O, matplotlib rendering): cannot be executed symbolically; stubbing it '
